@@ -130,7 +130,10 @@ def consequent_semantics(check: Check, rule: str = "M-sem", aspects: tuple[str, 
                         got.append(("?", None))
                         continue
                     t_ = a.fields.get("term")
-                    got.append((t_.fields["name"] if isinstance(t_, MObj) else "?", freeze(a.fields.get("_degree", a.fields.get("degree")))))
+                    deg_ = a.fields.get("_degree", a.fields.get("degree"))
+                    if isinstance(deg_, Opaque):
+                        raise Unknown(f"Consequent.modify: the degree of an activated term is computed by something outside the model ({deg_.what})")
+                    got.append((t_.fields["name"] if isinstance(t_, MObj) else "?", freeze(deg_)))
                     if a.fields.get("implication") is not impl:
                         bad.setdefault("implication", (f"{what}: the activated term for {nm} does not carry the implication operator that was handed in", None))
                 if [g[0] for g in got] != [w[0] for w in want[nm]]:
